@@ -50,6 +50,19 @@ def located_error(
         positions = original_error.positions  # type: ignore
     except AttributeError:
         positions = None
+    else:
+        # Only adopt positions that really are character offsets; an unrelated
+        # exception class may use an attribute of that name for something else.
+        if not (
+            isinstance(positions, (list, tuple))
+            and all(
+                isinstance(position, int)
+                and not isinstance(position, bool)
+                and position >= 0
+                for position in positions
+            )
+        ):
+            positions = None
 
     with suppress_attribute_error:
         error_nodes = original_error.nodes  # type: ignore
